@@ -41,6 +41,16 @@ CLAIMS = {
         text="The same histories as C02 (differ=metadata) are run with NotifyHashed and a header-seeded ContentHasher. Each sync's notification log is replayed on the old destination's path set and must yield the new one; every changed or new path must be reported exactly once with the metadata as sent; unchanged paths must not be reported; delete events must be exactly the top-most removed paths; each digest must equal H(header of the stat as sent || bytes now stored). Sampled, no proof.",
         note="add and modify are both treated as 'set entry' (the statement does not require them to be told apart). Merge mode and differ=none are outside C05.",
         ref="4 C05"),
+    "C06": dict(
+        technique="rapid-generated source views x request scripts executed by an independent reference receiver against the real Send; protocol monitor over the complete packet log; termination decided by goroutine quiescence",
+        text="The real sender is driven by a reference receiver written only from the protocol description (any subset/order of requests, eager requests racing the STAT stream, unpaced bursts of up to 300 requests on capacity-0..64 streams, slow reader, illegal requests). Every packet it emits is checked: STAT sequence equals the view's listing in component order followed by exactly one marker, per-id framing (payload concatenation = file bytes, exactly one terminator, nothing after, nothing unrequested), FIN echoed exactly once then success, illegal ids fail the call, progress callbacks monotone with one final call. Sampled schedules and scripts, no proof.",
+        note="Closed-loop pairing of fsutil's own two ends is avoided; the trusted peer is harness/refrecv.go. Requests for not-yet-announced ids and for link members are outside the domain.",
+        ref="4 C06"),
+    "C07": dict(
+        technique="rapid-generated STAT sequences, chunkings and interleavings executed by an independent reference sender against the real Receive; protocol monitor over the packet log; on-disk check while the receiver waits for the FIN echo",
+        text="The real receiver is driven by a reference sender written only from the protocol description (synthetic stats incl. hard-link layouts and special files, prior destinations with identity-equal files, chunkings from 1 byte to 1 MiB, drawn interleavings of ids, DATA racing later STATs, fan-out up to 1100 pending requests, early end of stream). Checked: each REQ names an already-announced regular non-link file whose identity differs, once; FIN only after marker and all terminators; at FIN time every file already holds exactly the bytes sent; success after echo+close, error on early end; final tree equals what was announced. Sampled, no proof.",
+        note="Trusted peer is harness/refsend.go. Hard-link timing exception as in C02.",
+        ref="4 C07"),
 }
 
 NOT_YET = "check not built yet in this round (planned, see DESIGN.md section 9)"
